@@ -555,6 +555,7 @@ def run_c20(ctx, cat, by_id, sp, build_cfg):
         rep.note("[%s] replayed %d behaviours (%d died) in %.1fs" % (name, len(got), len(dead), time.time() - t0))
         if "asyncstacks" in name:
             n, rejected = vlib.validate_batched(ctx, "coro", "TaskMon", lp, env={"PROP": "C20"}, skip_x=set(dead), max_reports=4)
+            rep.note("[%s] %d executions validated against TaskMon[C20] (no current AsyncStackRoot at any quiescent point / at the end)" % (name, n))
             for rj in rejected:
                 x = rj["x"]
                 b = behaviours[x] if x is not None and x < len(behaviours) else None
